@@ -79,3 +79,30 @@ pub fn poll_boxed<T>(f: &mut Pin<Box<dyn Future<Output = T> + Send>>, w: &Waker)
     let mut cx = Context::from_waker(w);
     f.as_mut().poll(&mut cx)
 }
+
+/// A waker whose vtable functions are yield points: `clone`, `wake_by_ref` and `wake` are user
+/// (executor) code that the library calls, possibly inside its critical sections.
+pub fn user_waker() -> (Arc<Flag>, Waker) {
+    use std::task::{RawWaker, RawWakerVTable};
+    unsafe fn clone(p: *const ()) -> RawWaker {
+        crate::ctl::user_point("user:waker_clone");
+        Arc::increment_strong_count(p as *const Flag);
+        RawWaker::new(p, &VTABLE)
+    }
+    unsafe fn wake(p: *const ()) {
+        crate::ctl::user_point("user:waker_wake");
+        let a = Arc::from_raw(p as *const Flag);
+        a.0.store(true, SeqCst);
+    }
+    unsafe fn wake_by_ref(p: *const ()) {
+        crate::ctl::user_point("user:waker_wake_by_ref");
+        (*(p as *const Flag)).0.store(true, SeqCst);
+    }
+    unsafe fn drop_w(p: *const ()) {
+        drop(Arc::from_raw(p as *const Flag));
+    }
+    static VTABLE: RawWakerVTable = RawWakerVTable::new(clone, wake, wake_by_ref, drop_w);
+    let f = Arc::new(Flag(AtomicBool::new(false)));
+    let raw = RawWaker::new(Arc::into_raw(Arc::clone(&f)) as *const (), &VTABLE);
+    (f, unsafe { Waker::from_raw(raw) })
+}
